@@ -35,7 +35,7 @@ BaseTx == Tx(D(2024, 1, 15), Text(1), << Post(3, <<Amt(1050, 2, 4)>>), Post(2, <
 
 (* ---- value menus ---------------------------------------------------------------------------- *)
 Values == { <<5, 0>>, <<100, 0>>, <<1050, 2>>, <<15, 1>>, <<123456, 2>>, <<1234567, 0>>, <<123456789, 2>>,
-            <<2500, 0>>, <<1, 0>>, <<12345678, 4>>, <<7, 8>>, <<123, 12>>, <<100000, 0>>, <<1000, 3>> }
+            <<2500, 0>>, <<1, 0>>, <<12345678, 4>>, <<7, 8>>, <<123, 12>>, <<100000, 0>>, <<1000, 3>>, <<125, 3>>, <<5, 1>> }
 
 AllAmounts(u) ==
     { a \in [neg : BOOLEAN, m : {v[1] : v \in Values}, sc : {v[2] : v \in Values}, n : Notations, comm : 0..Len(Commodities),
@@ -84,6 +84,9 @@ FamPostings(u) ==
     \cup { Case("postings-trigger", "lower-commodity-before-operator",
                  << [BaseTx EXCEPT !.posts[1].cost = <<[total |-> t, a |-> Amt(15, 1, 9)]>>, !.posts[1].asrt = <<[strict |-> FALSE, a |-> Amt(100, 0, 4)]>>] >>) :
              t \in BOOLEAN }
+    \cup { Case("postings-acct-amount", "", << [BaseTx EXCEPT !.posts[1].acct = a, !.posts[1].gap = g, !.posts[1].amt = <<x>>] >>) :
+             a \in 1..Len(Accounts), g \in {2, 3, 4},
+             x \in { y \in AllAmounts(0) : y.m = 5 /\ y.sc = 0 /\ y.n = "point" /\ ~y.plus /\ y.comm \in {0, 1, 4, 7, 9} } }
     \cup { Case("postings-noamount", "", << [BaseTx EXCEPT !.posts[2] = [ind |-> i, st |-> s, kind |-> k, acct |-> a, gap |-> 2,
                                                            amt |-> <<>>, cost |-> <<>>, asrt |-> <<>>, cmt |-> pc]] >>) :
           i \in {0, 2, 4}, s \in {"", "*"}, k \in {"real", "paren", "bracket"}, a \in 1..Len(Accounts), pc \in PComments }
@@ -131,7 +134,7 @@ FamPairs(u) ==
 Pick(S) == RandomElement(S)
 Coin(n, x) == RandomElement(1..n) = 1          \* x: dummy, keeps TLC from caching the draw
 
-ValuesA == { <<5, 0>>, <<100, 0>>, <<1050, 2>>, <<123456, 2>>, <<1234567, 0>>, <<2500, 0>>, <<1, 0>>, <<99, 2>>, <<100000, 0>> }
+ValuesA == { <<5, 0>>, <<100, 0>>, <<1050, 2>>, <<123456, 2>>, <<1234567, 0>>, <<2500, 0>>, <<1, 0>>, <<99, 2>>, <<100000, 0>>, <<125, 3>>, <<5, 1>> }
 
 RandAmtIn(x, vals, comms) ==
     LET v    == Pick(vals)
